@@ -465,7 +465,8 @@ S4Parts == <<
   Grp("choice", 1, 1, <<Grp("seq", 2, 2, <<El("a", 1, 1), El("b", 0, 1)>>), El("c", 3, 4), Loc("d", "tE", 1, INF)>>),
   Grp("seq", 0, INF, <<El("a", 1, 1), Grp("choice", 1, 2, <<El("b", 1, 1), El("c", 1, 1)>>)>>),
   Grp("seq", 1, 1, <<El("a", 3, 3), El("b", 1, 1), El("a", 0, 2)>>),
-  Grp("seq", 1, 1, <<El("a", 0, 0), El("b", 2, INF), El("c", 3, INF)>>)>>
+  Grp("seq", 1, 1, <<El("a", 0, 0), El("b", 2, INF), El("c", 3, INF)>>),
+  Grp("seq", 1, 1, <<El("a", 0, 0), El("b", 1, 2)>>)>>                      \* maxOccurs = 0: no particle at all (3.9.2)
 S4 == {Case("S4", <<k>>, SchemaP(S4Parts[k], "elemOnly"), {H0}, {E0("a"), E0("b"), E0("c"), E0("d")}, Len5) : k \in 1..Len(S4Parts)}
 S5 == {Case("S5", <<ns, pc, r>>, SchemaP(Grp("seq", 1, 1, <<El("a", 1, 1), Wild(ns, pc, r[1], r[2])>>), "elemOnly"),
             {H0}, {E0("a"), Abad, Ux, Ox, Nx}, Len3) :
